@@ -20,9 +20,9 @@ type c10Case struct {
 	InFlight int    `json:"inflight"` // requests whose handlers are parked when the offence arrives
 	After    int    `json:"after"`    // requests written right behind the offence
 	Off      string `json:"off"`
-	Trail    string `json:"trail"`  // silent, valid, flood, noread, close
-	TrailN   int    `json:"trailn"` //
-	Burst    bool   `json:"burst,omitempty"`   // in-flight requests and the offence are written without waiting in between
+	Trail    string `json:"trail"`           // silent, valid, flood, noread, close
+	TrailN   int    `json:"trailn"`          //
+	Burst    bool   `json:"burst,omitempty"` // in-flight requests and the offence are written without waiting in between
 }
 
 type c10Offence struct {
@@ -215,7 +215,7 @@ func c10Run(c c10Case) Outcome {
 	}
 	if !returned {
 		st := h.Stats
-		gs := peer.LibraryGoroutines()
+		gs := h.ConnGoroutines()
 		evidence := ""
 		for _, g := range gs {
 			if strings.Contains(g, "serverConn).readLoop") && strings.Contains(g, "chan send") && st.Ev[http2.VerifEvStreamLoopExit].Load() > 0 {
@@ -283,10 +283,8 @@ func c10Run(c c10Case) Outcome {
 	// nothing of the connection may be left behind
 	for try := 0; ; try++ {
 		left := ""
-		for _, g := range peer.LibraryGoroutines() {
-			if strings.Contains(g, "serverConn)") {
-				left = firstLines(g, 10)
-			}
+		for _, g := range h.ConnGoroutines() {
+			left = firstLines(g, 10)
 		}
 		if left == "" {
 			break
